@@ -10,7 +10,8 @@ LEVEL_NOTE = ("The theorems are about the model; the model/code tie is sampled (
               "stores (GetMessages order, RemoveMessage, Source availability), STLS / CAPA as a layer around the session model (Model/Pop3Tls.v; kind tls drives a real handshake; "
               "ForceTLS is in the model but not driven; an STLS arriving while writes already fail is treated as an ordinary lost-reply step), "
               "timeouts (a read times out exactly where the scripted connection pauses; no clocks), true concurrency inside one command "
-              "(external store changes happen between commands); a read error in the middle of streaming a message. What RETR/TOP normalise is stated exactly by pop3_norm_pieces (every LF-separated piece comes back with exactly one CR before its LF: 'a LF' -> 'a CR LF', 'a CR LF' and 'a CR CR LF' unchanged, an unterminated last piece is terminated); pop3_norm_only_line_endings alone compares the non-CR/LF bytes and cannot see a moved CR.")
+              "(external store changes happen between commands); a read error in the middle of streaming a message. What RETR/TOP normalise is stated exactly by pop3_norm_pieces (every LF-separated piece comes back with exactly one CR before its LF: 'a LF' -> 'a CR LF', 'a CR LF' and 'a CR CR LF' unchanged, an unterminated last piece is terminated); pop3_norm_only_line_endings alone compares the non-CR/LF bytes and cannot see a moved CR."
+              " Composed over ONE abstract store with the other interfaces' models (Proofs/InterfacesRemoval.v, InterfacesRemovalPop3.v, InterfacesSeen.v): removed_message_is_gone_from_every_interface / purged_mailbox_is_empty_in_every_interface (after REST DELETE the store, REST /source, web-UI /source and a second DELETE answer not-there, the listing and the POP3 view lose exactly that message, everything else is untouched), pop3_quit_deletions_reach_every_interface (what a POP3 QUIT commits is gone from the store and REST, what the session did not mark stays), seen_changes_only_the_flag (PATCH seen changes one flag; POP3 view and sources unchanged); removal_premises_hold / quit_instance are kernel-evaluated instances.")
 TECHNIQUE = "machine-checked proof in Coq + model/code correspondence check"
 DESIGN_REF = "DESIGN.md §4 C13, Appendix C.2"
 RULE = ("sess: generated POP3 dialogues (0-8 messages, hostile message sources incl. 70 KB lines, valid/malformed/out-of-range/"
